@@ -45,7 +45,7 @@ def gen_case(rng, writes_only=False, maxlen=15):
         budget -= adv
         cmds.append([adv, gen_cmd(rng, keys, reads=not writes_only)])
     return {"mode": rng.choice(["fast", "locked", "serializable"]), "init": init, "cmds": cmds,
-            "ending": rng.choice(["commit", "commit", "rollback", "raise"]), "nested": rng.random() < 0.25}
+            "ending": rng.choice(["commit", "commit", "commit", "rollback", "raise", "cancel"]), "nested": rng.random() < 0.25}
 
 
 async def _apply(cache, c):
@@ -107,7 +107,9 @@ def run(case):
                     await tx.rollback()
                 elif case["ending"] == "raise":
                     raise Boom()
-        except Boom:
+                elif case["ending"] == "cancel":       # the block is left by a BaseException (task cancellation)
+                    raise asyncio.CancelledError()
+        except (Boom, asyncio.CancelledError):
             pass
         except Exception as e:  # noqa
             anomaly = type(e).__name__
@@ -148,7 +150,7 @@ def to_coq(case, obs):
     final = snap_coq(obs["final"])
     if obs["anomaly"] or obs["reserved_left"]:
         final = [Some((C("VStr", S("<anomaly:%s %s>" % (obs["anomaly"], obs["reserved_left"]))), None))] + final[1:]
-    e = C({"commit": "ECommit", "rollback": "ERollback", "raise": "ERaise"}[case["ending"]])
+    e = C({"commit": "ECommit", "rollback": "ERollback", "raise": "ERaise", "cancel": "ERaise"}[case["ending"]])
     return C("CTxn", [S(k) for k in KEYS], Z(obs["t0"]), init, h, e, Z(obs["tend"]), res, outside, final)
 
 
